@@ -66,7 +66,7 @@ def run_one(args):
         ref['sched'] = ctx.sched
         conn = amqpstorm.Connection('localhost', 'guest', 'guest', heartbeat=0, timeout=1)
         broker = ctx.net.brokers[0]
-        chans = [conn.channel(rpc_timeout=5) for _ in sc['roles']]
+        chans = [conn.channel(rpc_timeout=60) for _ in sc["roles"]]
         consumed = {i: [] for i in range(len(chans))}
         expected_get = {}
         for i, role in enumerate(sc['roles']):
